@@ -515,6 +515,7 @@ fn holder_thread(map: &Map, cfg: &RoundCfg, tid: usize, seed: u64, bar: &Barrier
 /// Runs one round. Everything random derives from `seed`.
 pub fn run_round(cfg: &RoundCfg, seed: u64) -> RoundResult {
     let mut res = RoundResult::default();
+    mark(&format!("freerun round seed={seed:#x} {}", cfg.to_json()));
     hook::set_delay_level(cfg.delay_level);
     hook::set_focus_site(cfg.focus_site);
     let _ = hook::signature_take();
